@@ -5,7 +5,11 @@ import CentrifugeVerif.Model.HistoryCmd
 Driver for C43 (history / presence / presence_stats client commands vs node-level results).
 
 ```
-reset max=<HistoryMaxPublicationLimit> meta=<ms> hh=<0|1>   -> ok
+reset max=<HistoryMaxPublicationLimit> meta=<ms> hh=<0|1> [sf=<0|1>]   -> ok   (sf = Config.UseSingleFlight)
+ohist <ch> since=… limit=<int32> rev=… nodelimit=<int> @<ms> -> <as hist> bg=ok:<n>|err=<code>
+    (the client command runs while a node-level History(ch, same since/rev, limit=nodelimit) is
+    parked inside the broker; single-flight must not let the two share a result unless the
+    effective filters are equal — in which case the results are equal anyway)
 pub <ch> <data> size=<n> ttl=<ms> @<ms>                     -> off=<n> ep=<i>
 hist <ch|-> since=<off>:<ep>|- limit=<int32> rev=<0|1> @<ms> -> ok pos=<n>:<i> pubs=… | err=<code> | disc=<code> | closed
 nodehist <ch> since=… limit=<int> rev=… @<ms>               -> ok pos=… pubs=… | err=<code>
@@ -85,6 +89,25 @@ def stepC43 (c : CState) (line : String) : CState × String :=
       let (seen, out) := fmtHist d.seen r.2
       ({ c with d := { d with b := r.1, seen := seen }, closed := isDisc r.2 }, out)
     | _, _ => (c, "bad-op")
+  | "ohist" :: ch :: rest =>
+    match parseFilter rest, kvInt rest "nodelimit", atTime rest with
+    | some f, some nl, some t =>
+      let d := c.d.advance (t0ms + t)
+      let f := resolveFilter d.seen f
+      -- the two calls only read the stream (and refresh the same meta deadline / create the same
+      -- missing stream), so their order is irrelevant for both results
+      let bg := nodeHistory d.b ch { f with limit := nl } d.last
+      let bgOut := match bg.2 with
+        | .ok r => s!"bg=ok:{r.1.length}"
+        | .error code => s!"bg=err={code}"
+        | .disconnect code => s!"bg=disc={code}"
+      let d := { d with b := bg.1 }
+      if c.closed then ({ c with d := d }, s!"closed {bgOut}") else
+      let r := historyCmd c.handler c.maxLimit d.b
+        { channel := chanTok ch, since := f.since, limit := f.limit, reverse := f.reverse } d.last
+      let (seen, out) := fmtHist d.seen r.2
+      ({ c with d := { d with b := r.1, seen := seen }, closed := isDisc r.2 }, s!"{out} {bgOut}")
+    | _, _, _ => (c, "bad-op")
   | "nodehist" :: ch :: rest =>
     match parseFilter rest, atTime rest with
     | some f, some t =>
